@@ -55,10 +55,11 @@ def cases_R(printed):
         docs = jdocs(p["docs"])
         exp = sorted(p["exp"], key=lambda e: (e["f"], e["max"]))
         steps = [dict(op="resolve", d="A", t="t1", f=e["f"], max=e["max"]) for e in exp]
-        expect = [dict(v=e["v"], at=list(e["at"]), reads=list(e["reads"])) for e in exp]
+        expect = [dict(v=e["v"], at=list(e["at"]), reads=list(e["reads"]),
+                       e=docs[e["at"][0]]["svc"][e["at"][1]] if e["v"] == "ok" else None) for e in exp]
         out.append(dict(id=case_id("R", docs, steps), fam="R", docs=docs, managed=MANAGED, steps=steps, expect=expect,
                         docs_after=[None] * len(steps)))
-    return out
+    return sorted(out, key=lambda c: c["id"])
 
 
 def cases_hist(printed, fam):
@@ -106,7 +107,7 @@ def cases_hist(printed, fam):
                 st["nets"] = [n for n in st["nets"] if n["after"] < len(reads)]
                 cur = None  # documents after a resolution with updates: taken from the driver's own bookkeeping, not compared
                 steps.append(st)
-                expect.append(dict(v=res["v"], at=[res["d"], res["t"]] if res["v"] == "ok" else [], reads=reads))
+                expect.append(dict(v=res["v"], at=[res["d"], res["t"]] if res["v"] == "ok" else [], reads=reads, e=res.get("e")))
                 after.append(None)
                 continue
             if a in ("Add", "Delete"):
@@ -262,7 +263,7 @@ class Judge:
 
     def judge_resolve(self, c, r, i, st, ex, got):
         v = got["v"]
-        self.decisions += 3
+        self.decisions += 4
         if len(got["reads"]) > st["max"]:
             self.viol(dict(kind="depth-exceeded", fam=c["fam"]), c, r, "step %d: %d store reads with maxDepth %d" % (i, len(got["reads"]), st["max"]))
         if v == "ok" and got.get("k") not in ("url", "map"):
@@ -271,6 +272,9 @@ class Judge:
             kind = "resolve-mismatch" if "ok" in (v, ex["v"]) else "wrong-error-class"
             self.viol(dict(kind=kind, fam=c["fam"], model=ex["v"], real=v), c, r,
                       "step %d: real %s %s, reference semantics %s %s" % (i, v, got.get("at"), ex["v"], ex["at"]))
+        elif v == "ok" and not endpoint_eq(got.get("e"), ex["e"]):
+            self.viol(dict(kind="resolve-mismatch", fam=c["fam"], model="ok", real="other-endpoint"), c, r,
+                      "step %d: real endpoint %s, reference semantics %s (another version of the document?)" % (i, json.dumps(got.get("e")), json.dumps(ex["e"])))
         if got["reads"] != ex["reads"] and v == ex["v"]:
             self.note("reads", "case %s step %d: store reads %s, model %s (document cache used differently)" % (c["id"], i, got["reads"], ex["reads"]))
         if got.get("pending_nets"):
@@ -620,6 +624,7 @@ def run(prop, tier, seed, replay=None):
                cases_enumerated_by_tlc=enumerated, cases_replayed_on_real_code={f: len(fams[f]) for f in fams},
                real_steps=dict(j.stats), cases_with_violation_or_known_finding=j.viol_cases, models=models,
                known_findings_seen=sorted(rep.known), binding_self_test=corrupt,
+               selection_digest=hashlib.sha1(" ".join(c["id"] for c in order).encode()).hexdigest()[:16],
                rule="TLC enumerates four families from MCServiceRef.tla: R every path graph over 3 DIDs x 2 types up to renaming (chains of 1..6 "
                     "services closed by URL / compound / dangling type / unknown DID / deactivated DID / 4 malformed references / a reference "
                     "back to every chain node, first reference in 3 spellings) x 7 query forms and 7 maxDepth values; U one resolution "
